@@ -40,8 +40,12 @@ CONSTANTS Ctx,        \* context names, strings
           Configs,    \* the ways the embedding API offers to configure a context, see ConfigSeq
           ConfigDepth \* assignments with at most this many operations in total are explored under every configuration
 
-Mods     == {"math", "umod"}   \* math: implemented in Go; umod: Python source found on sys.path
+Mods     == {"math", "umod", "pmod"}   \* math: implemented in Go; umod: Python source found on sys.path; pmod: see PathOf
 SrcMods  == {"umod"}           \* importing these runs a body that prints "body", once per context
+\* pmod is a module NAME that the contexts' search paths resolve differently: the embedder gave context c1 a sys.path
+\* with directory A, c2 one with directory B (each holds its own pmod.py, printing "bodyA" / "bodyB"), every other
+\* context none of them.  Which file the name means is a function of the importing context's OWN sys.path.
+PathOf(c) == IF c = "c1" THEN "A" ELSE IF c = "c2" THEN "B" ELSE "none"
 SysLists == {"path", "argv"}
 
 \* Types defined in Go come from three places, and the type is a parameter of SetTypeAttr/GetTypeAttr:
@@ -53,7 +57,7 @@ TypeKinds == {"builtin", "stdlib", "embedder"}
 
 Op(o, a) == [op |-> o, a |-> a]
 OpList == << Op("SetGlobal", ""), Op("GetGlobal", ""),
-             Op("Import", "math"), Op("Import", "umod"),
+             Op("Import", "math"), Op("Import", "umod"), Op("Import", "pmod"),
              Op("SetModAttr", "math"), Op("SetModAttr", "umod"),
              Op("GetModAttr", "math"), Op("GetModAttr", "umod"),
              Op("AppendSys", "path"), Op("AppendSys", "argv"),
@@ -126,7 +130,7 @@ Local0 == [main     |-> [g |-> None],
            builtins |-> None,
            sysout   |-> FALSE,
            replst   |-> [mid |-> FALSE, saved |-> "default"]]
-View0  == [tattr |-> [k \in TypeKinds |-> None], env |-> None, pe |-> "default", depth |-> 0]
+View0  == [tattr |-> [k \in TypeKinds |-> None], env |-> None, pe |-> "default", depth |-> 0, pcache |-> None]
 
 \* stdout lines are joined with "/"; an exception is the last segment "exc:<Class>"
 Cat(a, b) == IF a = "" THEN b ELSE IF b = "" THEN a ELSE a \o "/" \o b
@@ -148,6 +152,12 @@ Eff(c, st, L, S, pol) ==
       R(L2, S2, out) == [L |-> L2, S |-> S2, out |-> <<OpEntry(i, out)>>, echoTo |-> "", echo |-> OpEntry(0, "")]
   IN CASE o = "SetGlobal"  -> R([L EXCEPT !.main.g = Some(v)], S, "")
        [] o = "GetGlobal"  -> R(L, S, IF L.main.g.has THEN L.main.g.v ELSE "exc:NameError")
+       \* importing pmod: the file this context's own search path finds (implementation-shaped: the file whoever imported
+       \* the name first in this process found - shared[c].pcache); no file: ImportError, nothing loaded, nothing remembered
+       [] o = "Import" /\ a = "pmod" ->
+            LET src == IF S.pcache.has THEN S.pcache.v ELSE PathOf(c) IN
+            IF src = "none" THEN R(L, S, "exc:ImportError")
+            ELSE R(Loaded(L, a), [S EXCEPT !.pcache = Some(src)], IF L.store[a].loaded THEN "" ELSE "body" \o src)
        [] o = "Import"     -> R(Loaded(L, a), S, BodyOut(L, a))
        [] o = "SetModAttr" -> R([Loaded(L, a) EXCEPT !.store[a].attr = Some(v)], S, BodyOut(L, a))
        [] o = "GetModAttr" -> R(Loaded(L, a), S,
